@@ -371,8 +371,48 @@ def _classify_exc(e):
 
 
 def _child(root, url, force, crash_at, tar_crash, spool, chunk):
+    """one sync process.  Runs in a forked child (thorough tier: the process really dies at a crash)
+    or in the harness process (quick tier; process creation is expensive in the sandbox): every
+    patch is undone afterwards and the objects a dead process would never have finalised are
+    neutralised so that no destructor touches the tree later."""
     from pkgcore.sync import tar as tarmod
-    os.umask(0o022)
+    saved = {"umask": os.umask(0o022), "tempdir": tempfile.tempdir, "stdout": sys.stdout, "stderr": sys.stderr,
+             "register": atexit.register, "fd": shutil._use_fd_functions, "run": subprocess.run,
+             "cleanup": tempfile._TemporaryFileCloser.cleanup}
+    try:
+        return _child_body(tarmod, root, url, force, crash_at, tar_crash, spool, chunk)
+    finally:
+        os.umask(saved["umask"])
+        tempfile.tempdir = saved["tempdir"]
+        sys.stdout, sys.stderr = saved["stdout"], saved["stderr"]
+        atexit.register = saved["register"]
+        shutil._use_fd_functions = saved["fd"]
+        subprocess.run = saved["run"]
+        tempfile._TemporaryFileCloser.cleanup = saved["cleanup"]
+
+
+def _neutralise(s):
+    """the process is dead: its AtomicWriteFile / NamedTemporaryFile objects must never run their
+    destructors (they would unlink files of the crash state)"""
+    d = getattr(s, "_download", None)
+    if d is not None:
+        try:
+            d._real_close()
+        except Exception:  # noqa: BLE001
+            pass
+        d._is_finalized = True
+    t = getattr(s, "tarball", None)
+    if t is not None:
+        closer = getattr(t, "_closer", None)
+        if closer is not None:
+            closer.delete = False
+        try:
+            t.file.close()
+        except Exception:  # noqa: BLE001
+            pass
+
+
+def _child_body(tarmod, root, url, force, crash_at, tar_crash, spool, chunk):
     tempfile.tempdir = os.path.join(root, "tmp")
     sys.stdout = io.StringIO()
     sys.stderr = io.StringIO()         # "Exception ignored in __del__" of a crashed destructor
@@ -456,6 +496,18 @@ def _child(root, url, force, crash_at, tar_crash, spool, chunk):
             extra = c.args[1]
         trace.append((c.kind, c.cpaths, c.ok, extra))
     crashed = run.crashed or isinstance(run.exc, fsx.Crash)
+    if crashed:
+        if "s" in keep:
+            _neutralise(keep["s"])
+        # an AtomicWriteFile whose constructor was interrupted is referenced only by the traceback
+        from snakeoil.fileutils import AtomicWriteFile_mixin
+        for o in gc.get_objects():
+            if isinstance(o, AtomicWriteFile_mixin) and not getattr(o, "_is_finalized", True):
+                try:
+                    o._real_close()
+                except Exception:  # noqa: BLE001
+                    pass
+                o._is_finalized = True
     res = {"trace": trace, "crashed": crashed, "info": {k: v for k, v in info.items()},
            "code": None, "detail": None, "keepalive": None}
     if not crashed:
@@ -463,10 +515,21 @@ def _child(root, url, force, crash_at, tar_crash, spool, chunk):
             res["code"], res["detail"] = 93, repr(run.exc)
         else:
             res["code"], res["detail"] = run.result
-    return res, (run, keep)
+    # nothing of this process may act later (a destructor running inside the NEXT traced run would
+    # shift its call indices): drop every reference now, outside the interposer
+    run = None
+    keep.clear()
+    gc.collect()
+    return res, None
+
+
+USE_FORK = False
 
 
 def run_sync(root, url, force, spool, chunk, crash_at=None, tar_crash=None):
+    if not USE_FORK:
+        res, _alive = _child(root, url, force, crash_at, tar_crash, spool, chunk)
+        return res
     r, w = os.pipe()
     pid = os.fork()
     if pid == 0:
@@ -831,8 +894,11 @@ def main(chk: Check):
              "Extract and is compared with the tarball's member list by the harness); a completed call is assumed "
              "durable; directory trees are values of the model state (kernel rename/mkdir semantics trusted)")
     import pkgcore.sync.tar  # noqa: F401  (imported before forking)
+    global USE_FORK
+    USE_FORK = chk.thorough or os.environ.get("VERIF_C47_FORK") == "1"
+    chk.cov["forked_processes"] = USE_FORK
 
-    ncases = int(os.environ.get("VERIF_C47_CASES", 0)) or chk.n(10, 80)
+    ncases = int(os.environ.get("VERIF_C47_CASES", 0)) or chk.n(8, 80)
     max_points = chk.n(18, 60)
     work = str(chk.scratch / "c47")
     os.makedirs(work)
